@@ -40,6 +40,9 @@ CHECKS["C14"] = ("model_checking", "bounded-exhaustive exploration of the real c
 CHECKS["C07"] = ("model_checking", "bounded-exhaustive exploration of a loop twin of start_processing_loop over the real code (can_block_update_idle_waiting / handle_input_event / tick_ms), every history of D steps executed in two modes (block-when-allowed vs always-tick) and compared on ms-stamped outputs; stutter-invariance of the full state digest at every tick taken in a blockable state",
   "For every explored history the blocking loop and the always-ticking loop emit identical ms-stamped outputs, and every tick taken where blocking is allowed is a no-op on the complete state digest (which, by determinism, extends the equality to all gap lengths and continuations from that state).",
   "thread interleavings of the real threaded loop and scheduler jitter are not explored (see assumptions); live reload is C15", "DESIGN.md §4 C07")
+CHECKS["C08"] = ("model_checking", "bounded-exhaustive exploration of the real code: all macro bodies up to L items over an 8-item grammar x 8 macro variants, each with release / other-key events at every tick offset of the expansion, plus the 1..6 concurrent-macros family; checked against an independent expansion of the body (prefix-closed for cancel variants) with timing obligations",
+  "For every enumerated (body, variant, history) the projection of the real output onto the macro's keys is the body's expansion (or a legal cancelled prefix), steps are on distinct ticks, stated delays are respected, repeating stops with the key, and nothing the macro pressed stays pressed.",
+  "2 ticks of processing slack at cancel/release instants; cancel-on-press of repeat forms only required during the first round (documentation ambiguity); custom-item lag is a known finding", "DESIGN.md §4 C08")
 NOT_YET = {}
 props = [json.loads(l) for l in open('/verif/properties.jsonl')]
 hooks_commits = subprocess.run(["git","-C","/repo","log","--format=%h %s"],capture_output=True,text=True).stdout.splitlines()
